@@ -167,23 +167,28 @@ class WebsocketSession(object):
             )
         except _SocketFail as error:
             self._socket_fail('unable to connect to proxy; {}', error)
-        proxy_request = proxy.build_request(
-            self.websocket.host, self.websocket.port,
-            proxy_username=_proxy_url.username,
-            proxy_password=_proxy_url.password
-        )
-        sock.sendall(proxy_request)
-        proxy_parser = proxy.ProxyParser()
-        response = None
-        while response is None:
-            data = sock.recv(1024)
-            for response in proxy_parser.feed(data):
-                break
-        return (
-            self._wrap_socket(sock, self.websocket.host)
-            if self.websocket.is_secure else
-            sock
-        )
+        try:
+            proxy_request = proxy.build_request(
+                self.websocket.host, self.websocket.port,
+                proxy_username=_proxy_url.username,
+                proxy_password=_proxy_url.password
+            )
+            sock.sendall(proxy_request)
+            proxy_parser = proxy.ProxyParser()
+            response = None
+            while response is None:
+                data = sock.recv(1024)
+                for response in proxy_parser.feed(data):
+                    break
+            return (
+                self._wrap_socket(sock, self.websocket.host)
+                if self.websocket.is_secure else
+                sock
+            )
+        except Exception:
+            # Don't leak the socket to the proxy if negotiation fails
+            sock.close()
+            raise
 
     def _connect(self):
         """Create socket and connect."""
